@@ -329,6 +329,14 @@ def process_candidates(prop, exe, tier, candidates, log):
         def test(candidate):
             r, _ = run_plan(exe, candidate)
             return vclass(r) == cls
+        # thread simulations: continue with the schedule that was actually
+        # executed, written out as an explicit list of context switches
+        explicit = (res1.get("extra") or {}).get("explicit_schedule")
+        if explicit and isinstance(plan, dict) and "sched" in plan:
+            plan2 = dict(plan)
+            plan2["sched"] = explicit
+            if test(plan2):
+                plan = plan2
         small, tries = minimise.minimise(plan, test, budget=400)
         resm, errm = run_plan(exe, small, trace=False)
         if vclass(resm) != cls:
